@@ -65,6 +65,8 @@ func suiteNode(c *Ctx) {
 	c.Class("scenario/two-locks")
 	scenarioEquivocationCommit(c)
 	c.Class("scenario/equivocation-commit")
+	scenarioPaddedPrepare(c)
+	c.Class("scenario/padded-prepare")
 	// adversarial scenarios: Byzantine members of total weight <= f, all strategies
 	nadv := 60
 	if c.Thorough() {
@@ -364,6 +366,53 @@ func scenarioEquivocationCommit(c *Ctx) *Net {
 		f := net.pool[0]
 		net.pool = net.pool[1:]
 		net.deliverFlight(f)
+	}
+	return net
+}
+
+
+// padded-prepare: a Byzantine member's PREPARE whose signed header carries trailing bytes (same
+// field values, signature over exactly those bytes) completes the prepared quorum of two correct
+// members; they then time out and send their VIEW_CHANGE, with the proof extracted from their log,
+// to the correct leader of view 1.
+func scenarioPaddedPrepare(c *Ctx) *Net {
+	net := NewNet(c, NetOpts{N: 4, Weights: []uint64{1, 1, 1, 1}, ByzIdx: []int{3}, Inst: 100}, "padded-prepare n=4 byz=[3]")
+	net.start()
+	a := net.adv
+	typ := func(f *Flight) string { return fmt.Sprintf("%T", interfaces.ToConsensusMessage(f.Raw)) }
+	var hash []byte
+	var keep []*Flight
+	for _, f := range net.pool {
+		if typ(f) == "*interfaces.PreprepareMessage" {
+			hash = interfaces.ToConsensusMessage(f.Raw).(*interfaces.PreprepareMessage).Content().SignedHeader().BlockHash()
+			if string(f.To) == string(memberId(1)) || string(f.To) == string(memberId(2)) {
+				keep = append(keep, f)
+			}
+		}
+	}
+	net.pool = nil
+	for _, f := range keep {
+		net.deliverFlight(f)
+	}
+	net.pool = nil // the correct members' own PREPAREs reach nobody
+	if hash == nil {
+		c.Class("scenario/padded-prepare/not-reached")
+		return net
+	}
+	a.pad = true
+	a.toAll(a.mkP(memberId(3), protocol.LEAN_HELIX_PREPARE, 100, 1, 0, hash), "byz-prepare-padded")
+	a.pad = false
+	net.pool = nil // COMMITs reach nobody
+	for _, n := range net.order {
+		net.timeout(n, false)
+	}
+	// the votes for view 1 reach its (correct) leader
+	for len(net.pool) > 0 {
+		f := net.pool[0]
+		net.pool = net.pool[1:]
+		if typ(f) == "*interfaces.ViewChangeMessage" {
+			net.deliverFlight(f)
+		}
 	}
 	return net
 }
